@@ -414,6 +414,9 @@ class dir_archive(archive):
         return
     __setitem__.__doc__ = dict.__setitem__.__doc__
     def clear(self):
+        # remove the entries one at a time (each disappears atomically)
+        for _dir in self._lsdir():
+            self._rmdir(os.path.basename(_dir)[len(PREFIX):])
         rmtree(self.__state__['id'], self=False, ignore_errors=True)
         return
     clear.__doc__ = dict.clear.__doc__
